@@ -37,6 +37,8 @@ pub struct Cfg {
     pub n_users: usize,
     pub max_steps: usize,
     pub faults: bool,
+    #[serde(default)]
+    pub boundary: bool,
     /// provide, withdraw, swap, collect, ramp, roundtrip, depwd, setfees
     pub weights: [u32; 8],
 }
@@ -374,6 +376,7 @@ impl Scenario for Pool3 {
             n_users: rng.range(3, 5) as usize,
             max_steps: n,
             faults: rng.chance(1, 3),
+            boundary: prop == "C15" || rng.chance(1, 5),
             weights,
         }
     }
@@ -461,7 +464,7 @@ impl Scenario for Pool3 {
         }
         let mut fault = Fault::None;
         if self.cfg.faults && rng.chance(1, 10) {
-            fault = if rng.chance(2, 3) { Fault::SubCall(rng.range(2, 6) as u32) } else { Fault::Bank(rng.range(1, 3) as u32) };
+            fault = match rng.below(6) { 0..=2 => Fault::SubCall(rng.range(2, 6) as u32), 3 | 4 => Fault::Bank(rng.range(1, 3) as u32), _ => Fault::Query(rng.range(1, 4) as u32) };
         }
         let k = rng.weighted(&self.cfg.weights);
         let op = match k {
@@ -489,8 +492,24 @@ impl Scenario for Pool3 {
                 if k == 5 {
                     Op::RoundTrip { from, to, amount }
                 } else {
-                    let max_spread = match rng.below(4) { 0 => None, 1 => Some("0.01".to_string()), _ => Some("0.5".to_string()) };
-                    Op::Swap { from, to, amount, max_spread, belief: None }
+                    let (max_spread, belief) = if self.cfg.boundary {
+                        let sim = self.simulate(from, to, amount).ok();
+                        let g = sim.as_ref().map(|q| q.return_amount.u128().saturating_add(q.swap_fee_amount.u128()).saturating_add(q.protocol_fee_amount.u128()).saturating_add(q.burn_fee_amount.u128()));
+                        let realised = sim.as_ref().zip(g).and_then(|(q, g)| {
+                            let sp = q.spread_amount.u128();
+                            if g == 0 && sp == 0 { None } else { to_u128_256(u256(sp) * u256(E18) / (u256(g) + u256(sp))) }
+                        });
+                        let mut c = vec![0u128, E18 / 2 - 1, E18 / 2, E18 / 2 + 1, E18, E18 / 100, E18 / 100 + 1];
+                        if let Some(r) = realised { c.extend_from_slice(&[r.saturating_sub(1), r, r + 1, r + 2]); }
+                        let ms = if rng.chance(1, 8) { None } else { Some(atomics_to_dec(*rng.pick(&c))) };
+                        let belief = if rng.chance(1, 3) {
+                            g.and_then(|g| if g == 0 || amount == 0 { None } else { to_u128_256(u256(amount) * u256(E18) / u256(g)) }).map(|p| atomics_to_dec(*rng.pick(&[p.saturating_sub(1), p, p.saturating_add(1), p / 2, p.saturating_mul(2), (p / 100).saturating_mul(99), (p / 100).saturating_mul(101)])))
+                        } else { None };
+                        (ms, belief)
+                    } else {
+                        (match rng.below(4) { 0 => None, 1 => Some("0.01".to_string()), _ => Some("0.5".to_string()) }, None)
+                    };
+                    Op::Swap { from, to, amount, max_spread, belief }
                 }
             }
             3 => Op::Collect,
@@ -635,9 +654,36 @@ fn do_swap(s: &mut Pool3, ctx: &mut Ctx, actor: usize, from: usize, to: usize, a
     count_fault(ctx, fault, r.fault_fired);
     let after = match s.observe() { Ok(o) => o, Err(e) => { ctx.fail("C04", "solvency", "queries_fail", None, format!("after {opname}: {e}")); return None; } };
     ctx.trace(&format!("{opname}:{}:{amount}:{:?}", r.outcome.kind(), after.reserves));
+    let verdict = quote.as_ref().ok().map(|q| {
+        let g = q.return_amount.u128().saturating_add(q.swap_fee_amount.u128()).saturating_add(q.protocol_fee_amount.u128()).saturating_add(q.burn_fee_amount.u128());
+        (g, q.spread_amount.u128(), crate::scen::pool2_oracle::swap_slippage_verdict(amount, g, q.spread_amount.u128(), belief, max_spread))
+    });
     if !r.outcome.is_ok() {
+        let e = r.outcome.err_text();
+        if e.contains("Spread limit exceeded") {
+            if let Some((g, sp, v)) = verdict {
+                ctx.eval("C15");
+                ctx.probe("trio_swap_rejected_for_slippage");
+                if v == crate::scen::pool2_oracle::Slip::MustAccept {
+                    ctx.fail("C15", "trio_swap_rejected_within_limit", if belief.is_some() { "belief" } else { "spread" }, None,
+                        format!("3-pool swap rejected for slippage: offer {amount} gross {g} spread {sp} belief {belief:?} max_spread {max_spread:?}"));
+                }
+            }
+        }
         global_invariants(s, ctx, &before, &after, false, opname);
         return None;
+    }
+    if let (Some((g, sp, v)), true) = (verdict, amount >= 1) {
+        ctx.eval("C15");
+        if v == crate::scen::pool2_oracle::Slip::MustReject {
+            ctx.fail("C15", "trio_swap_accepted_beyond_limit", if belief.is_some() { "belief" } else { "spread" }, None,
+                format!("3-pool swap accepted: offer {amount} gross {g} spread {sp} belief {belief:?} max_spread {max_spread:?}"));
+        }
+        // the reported spread is the loss against a 1:1 conversion
+        let want = if amount > g { amount - g } else { g - amount };
+        if sp != want {
+            ctx.fail("C15", "trio_spread_meaning", "reported_spread_off", None, format!("offer {amount} gross {g}: reported spread {sp}, |offer - gross| = {want}"));
+        }
     }
     if r.fault_fired {
         ctx.fail("C04", "fault_swallowed", opname, None, "swap succeeded although a sub-call failed".into());
@@ -749,6 +795,35 @@ fn do_provide(s: &mut Pool3, ctx: &mut Ctx, actor: usize, amounts: [u128; 3], sl
     let after = match s.observe() { Ok(o) => o, Err(e) => { ctx.fail("C04", "solvency", "queries_fail", None, format!("after {opname}: {e}")); return false; } };
     ctx.trace(&format!("{opname}:{}:{:?}:{}", r.outcome.kind(), after.reserves, after.share));
     let ok = r.outcome.is_ok();
+    if let (Some(t), true) = (slippage, before.share > 0) {
+        use crate::scen::pool2_oracle::{stable_deposit_verdict, Slip};
+        let sp = u256(before.reserves[0]) + u256(before.reserves[1]) + u256(before.reserves[2]);
+        let sd = u256(amounts[0]) + u256(amounts[1]) + u256(amounts[2]);
+        let t18 = dec_atomics(t);
+        if ok {
+            ctx.eval("C15");
+            let minted = after.share.saturating_sub(before.share);
+            if stable_deposit_verdict(sp, before.share, sd, minted, t18) == Slip::MustReject {
+                ctx.fail("C15", "trio_deposit_accepted_beyond_tolerance", "deposit", None, format!("3-pool deposit {:?} into {:?} (S {}) minted {minted} accepted with slippage_tolerance {t}", amounts, before.reserves, before.share));
+            }
+        } else if r.outcome.err_text().contains("Slippage tolerance exceeded") && t18 <= E18 {
+            ctx.eval("C15");
+            ctx.probe("trio_deposit_rejected_for_slippage");
+            let d0 = compute_d3_emulated(amp, before.reserves);
+            let d1 = compute_d3_emulated(amp, [before.reserves[0].saturating_add(amounts[0]), before.reserves[1].saturating_add(amounts[1]), before.reserves[2].saturating_add(amounts[2])]);
+            if let (Some(d0), Some(d1)) = (d0, d1) {
+                if d1 > d0 && d0 > U1024::ZERO {
+                    let m = w(before.share) * (d1 - d0) / d0;
+                    if m <= w(u128::MAX / 2) {
+                        let m = m.digits()[0] as u128 | ((m.digits()[1] as u128) << 64);
+                        if [m.saturating_sub(1).max(1), m, m + 1].iter().all(|mm| stable_deposit_verdict(sp, before.share, sd, *mm, t18) == Slip::MustAccept) {
+                            ctx.fail("C15", "trio_deposit_rejected_within_tolerance", "deposit", None, format!("3-pool deposit {:?} into {:?} (S {}) would mint {m}; rejected with slippage_tolerance {t}", amounts, before.reserves, before.share));
+                        }
+                    }
+                }
+            }
+        }
+    }
     if ok {
         ctx.eval("C04");
         if r.fault_fired {
